@@ -364,3 +364,47 @@ def x3(cx: Cx, ob: Ob) -> None:
     from ..rules import cached_derivations
 
     cached_derivations(cx, ob)
+
+
+@obligation("C04-D6", "'listing the clashing records': DuplicateValueError keeps the list of clashes it is given unchanged (no de-duplication or truncation between the detector and the exception), and __init__ raises exactly what the detector returned", floor=3)
+def d6(cx: Cx, ob: Ob) -> None:
+    from ..terms import subterms
+
+    cls = cx.model.cls(f"{API}.DuplicateValueError", ob.id)
+    init = cls.methods.get("__init__")
+    if init is None:
+        ob.undecide("DuplicateValueError has no __init__")
+        return
+    s = cx.summary(init, ob.id)
+    me = ("param", init.self_name)
+    arg = init.params[1].name if len(init.params) > 1 else None
+    stores = [(ev, ctx) for ev, ctx in s.walk() if ev.kind == "store" and ev.a == ("attr", me, "duplicates")]
+    ob.site(f"{init.where} {init.qualname}", "stores duplicates")
+    if not stores:
+        ob.violate(init.qualname, init.where, "DuplicateValueError does not keep the list of clashing records", detail="not-stored")
+    for ev, ctx in stores:
+        if ev.b != ("param", arg):
+            ob.violate(init.qualname, where(init, ev.line), f"DuplicateValueError stores `{show(ev.b)[:80]}` instead of the clashes it was given: some clashing records are not listed", witness="three records sharing one URI prefix: only the last pair survives, the first record is never named", detail="transformed")
+        if [g for g in ctx.guards if g.kind == "guard"]:
+            ob.violate(init.qualname, where(init, ev.line), "DuplicateValueError stores the clashes only conditionally", detail="conditional")
+    # the constructor raises the detector result itself
+    ctor = cx.fn(f"{CONV}.__init__", ob.id)
+    cs = cx.summary(ctor, ob.id)
+    n = 0
+    for o, ctx in cs.outcomes():
+        if o is None or o[0] != "raise":
+            continue
+        t = o[1]
+        if op(t) != "call" or op(t[1]) != "cls" or t[1][1].rsplit(".", 1)[-1] not in ("DuplicateURIPrefixes", "DuplicatePrefixes"):
+            continue
+        n += 1
+        ob.site(f"{where(ctor, o[2])} {ctor.qualname}", f"raise {show(t)[:60]}")
+        a = t[2][0] if t[2] else None
+        want = "_get_duplicate_uri_prefixes" if t[1][1].endswith("DuplicateURIPrefixes") else "_get_duplicate_prefixes"
+        inner = a[2][0] if op(a) == "call" and a[2] else None
+        while op(inner) == "call" and inner[1] in (("builtin", "sorted"), ("builtin", "list"), ("builtin", "tuple")) and inner[2]:
+            inner = inner[2][0]  # order-only wrappers keep the collection
+        if not (op(a) == "call" and callee_name(a) == want and inner == ("param", "records")):
+            ob.violate(ctor.qualname, where(ctor, o[2]), f"{t[1][1].rsplit('.', 1)[-1]} is raised with `{show(a)[:70]}`, not with the full result of {want}(records)", detail=f"raise-arg:{want}")
+    if n < 2:
+        ob.undecide(f"only {n} duplicate-error raise(s) found in Converter.__init__")
